@@ -193,9 +193,9 @@ func ConstBool(v Value) (bool, bool) {
 	return constant.BoolVal(c.V), true
 }
 
-func MkInt(i int64, t types.Type) Const  { return Const{V: constant.MakeInt64(i), T: t} }
-func MkBool(b bool) Const                { return Const{V: constant.MakeBool(b), T: types.Typ[types.Bool]} }
-func MkString(s string) Const            { return Const{V: constant.MakeString(s), T: types.Typ[types.String]} }
+func MkInt(i int64, t types.Type) Const   { return Const{V: constant.MakeInt64(i), T: t} }
+func MkBool(b bool) Const                 { return Const{V: constant.MakeBool(b), T: types.Typ[types.Bool]} }
+func MkString(s string) Const             { return Const{V: constant.MakeString(s), T: types.Typ[types.String]} }
 func MkUint(u uint64, t types.Type) Const { return Const{V: constant.MakeUint64(u), T: t} }
 
 // Equal reports structural equality of two abstract values (same canonical form).
